@@ -40,6 +40,8 @@ def run(c):
     if c["kind"] == "pillar":
         x = jnp.asarray(np.asarray(c["x"], dtype=np.float64).reshape(c["shape"]))
         out = np.asarray(mod({"params": x})["params"])
+        if out.shape != tuple(c["shape"]):
+            return {"error": f"output shape {out.shape} != input shape {tuple(c['shape'])}"}
         res["out"] = np.rint(out).astype(int).tolist()
         res["exact_int"] = bool(np.all(out == np.rint(out))) and out.shape == tuple(c["shape"])
     return res
